@@ -52,6 +52,8 @@ pub struct InstD {
 }
 #[derive(Clone, Debug, PartialEq)]
 pub struct LayoutD {
+    /// name of the layout view when it differs from the cell's name
+    pub view_name: Option<String>,
     pub ox: Vec<i64>,
     pub oy: Vec<i64>,
     pub metals: usize,
@@ -121,7 +123,7 @@ impl LibD {
                 assigns.sort();
                 let mut cuts = l.cuts.clone();
                 cuts.sort();
-                NormLayout { name: c.name.clone(), ox: l.ox.clone(), oy: l.oy.clone(), metals: l.metals, insts, assigns, cuts }
+                NormLayout { name: l.view_name.clone().unwrap_or_else(|| c.name.clone()), ox: l.ox.clone(), oy: l.oy.clone(), metals: l.metals, insts, assigns, cuts }
             });
             let abs = c.abs.as_ref().map(|a| NormAbs { name: c.name.clone(), ox: a.ox.clone(), oy: a.oy.clone(), metals: a.metals, nports: 0 });
             cells.insert(c.name.clone(), NormCell { layout, abs });
@@ -169,7 +171,7 @@ pub fn build_lib(d: &LibD) -> Result<Library, String> {
             let xs: Vec<isize> = l.ox.iter().map(|v| *v as isize).collect();
             let ys: Vec<isize> = l.oy.iter().map(|v| *v as isize).collect();
             let o = Outline::new(&xs, &ys).map_err(|e| format!("setup: outline {e:?}"))?;
-            let mut lay = Layout::new(c.name.clone(), l.metals, o);
+            let mut lay = Layout::new(l.view_name.clone().unwrap_or_else(|| c.name.clone()), l.metals, o);
             for i in &l.insts {
                 lay.instances.add(Instance { inst_name: i.name.clone(), cell: ptrs[i.cell].clone(), loc: Place::Abs(xy(i.loc)), reflect_horiz: i.rh, reflect_vert: i.rv });
             }
@@ -747,7 +749,9 @@ impl CaseDriver for Dag {
                 assigns.push((net, CrossD(1 + a, 11 + i + 5 * a, a, 23 + i + a)));
             }
             let cuts: Vec<CrossD> = (0..ncut).map(|a| CrossD(a, 31 + i, 1 + a, 47 + i + a)).collect();
-            let layout = if views == 2 { None } else { Some(LayoutD { ox: ox.clone(), oy: oy.clone(), metals, insts, assigns, cuts }) };
+            // the layout view may carry a name of its own (the cell is still known by the cell's name)
+            let view_name = if views != 2 && c.cost(2, "layout-view-named-differently") == 1 { Some(format!("{cname}_impl")) } else { None };
+            let layout = if views == 2 { None } else { Some(LayoutD { view_name, ox: ox.clone(), oy: oy.clone(), metals, insts, assigns, cuts }) };
             let abs = if views >= 1 { Some(AbsD { ox, oy, metals }) } else { None };
             cells.push(CellD { name: cname, layout, abs });
         }
@@ -900,6 +904,7 @@ pub fn base_desc(k: usize) -> LibD {
     let lay = |i: usize, steps: usize, metals: usize, insts: Vec<InstD>, nas: usize, ncut: usize| {
         let (ox, oy) = outline_alt(i, steps - 1);
         LayoutD {
+            view_name: None,
             ox,
             oy,
             metals,
